@@ -353,6 +353,40 @@ func entropyCase(r *mon.Run, c Case) {
 	entropy.Check(r, "C07", r.Rng(fmt.Sprintf("c07/entropy/%d", c.Idx)), func(sig, what string) { r.Violate(sig, what, c) })
 }
 
+// tamper: the exported Basepoint slice is caller-writable memory. If its contents are changed in place, X25519 called
+// with that slice must either compute with the bytes it is given (RFC 7748 for that u) or refuse loudly (the library
+// documents a panic) - never silently take the fixed-base shortcut for u = 9. Runs alone, after the parallel phase,
+// and restores the bytes.
+func tamper(r *mon.Run) {
+	c := Case{Kind: "tamper"}
+	orig := append([]byte{}, x25519.Basepoint...)
+	defer copy(x25519.Basepoint, orig)
+	rng := r.Rng("c07/tamper")
+	for i := 0; i < 24; i++ {
+		copy(x25519.Basepoint, orig)
+		switch i % 3 {
+		case 0:
+			x25519.Basepoint[rng.IntN(32)] ^= 1 << uint(rng.IntN(8))
+		case 1:
+			x25519.Basepoint[0] = byte(10 + i)
+		default:
+			copy(x25519.Basepoint, mon.Bytes(rng, 32))
+		}
+		k := mon.Bytes(rng, 32)
+		cur := append([]byte{}, x25519.Basepoint...)
+		want := ref.X25519(k, cur)
+		var got []byte
+		var err error
+		pan, _ := mon.Try(func() { got, err = x25519.X25519(k, x25519.Basepoint) })
+		r.Eval(append([]byte("tamper"), cur...))
+		r.Hist(fmt.Sprintf("tamper/refused=%v", pan))
+		isZero := bytes.Equal(want, zero32)
+		if !pan && ((err != nil) != isZero || (err == nil && !bytes.Equal(got, want))) {
+			r.Violate("x25519/X25519/modified-Basepoint-slice", fmt.Sprintf("Basepoint slice holds %x: got %x err=%v, RFC 7748 for these bytes %x (no refusal either)", cur, got, err, want), c)
+		}
+	}
+}
+
 func runCase(r *mon.Run, c Case) {
 	if c.Kind == "entropy" {
 		entropyCase(r, c)
@@ -370,6 +404,8 @@ func runCase(r *mon.Run, c Case) {
 		x.conv(c)
 	case "field-contract":
 		fieldContract(r, c)
+	case "tamper":
+		tamper(r)
 	}
 }
 
@@ -436,6 +472,18 @@ func main() {
 			}
 		}
 	}
+	// ... and results whose words cancel under XOR / sum accumulators (an all-zero test rewritten word-wise)
+	for _, d := range gen.CancelPatterns(rng, r.Pick(80, 600)) {
+		k := mon.Bytes(rng, 32)
+		if q := ref.X25519Preimage(k, ref.FromLE(d)); q != nil {
+			if !bytes.Equal(ref.X25519(k, q), d) {
+				mon.Fatalf("preimage construction failed: k=%x q=%x target=%x", k, q, d)
+			}
+			cases = append(cases, Case{Kind: "pair", K: mon.Hex(k), U: mon.Hex(q)})
+			r.HistN("pair/structured-output/cancelling-words", 1)
+			nStruct++
+		}
+	}
 	if nStruct < 40 {
 		r.Inconclusive(fmt.Sprintf("only %d structured-output cases could be constructed", nStruct))
 	}
@@ -453,6 +501,7 @@ func main() {
 	}
 	r.Observe("cases", len(cases))
 	r.Parallel(len(cases), func(i int) { runCase(r, cases[i]) })
+	tamper(r)
 	r.Sample("case", cases[0])
 	r.Sample("case", cases[len(cases)/3])
 	r.Sample("case", cases[len(cases)-1])
